@@ -357,11 +357,16 @@ func (c *cfg) contradiction() string {
 	return ""
 }
 
-func scenarioFor(f string, c *cfg, notes map[string]bool) string {
+func scenarioFor(f string, c *cfg, notes map[string]bool, code string) string {
 	if k := c.contradiction(); k != "" {
 		return "contradictory-supported-override:" + k
 	}
 	switch f {
+	case "ArraySpread":
+		if v, ok := c.Supported["array-spread"]; ok && !v && strings.Contains(code, "super(...arguments)") {
+			return "generated-super-spread"
+		}
+		return "leak"
 	case "RegexpUnicodePropertyEscapes":
 		// which shape of regular expression carried the \p{..} into the output
 		switch {
@@ -407,7 +412,7 @@ func checkOutput(st *Stats, kind string, src string, c *cfg, r result) verdict {
 			continue
 		}
 		v.leaks = append(v.leaks, f)
-		input := map[string]interface{}{"kind": kind, "source": src, "config": c, "scenario": scenarioFor(f, c, notes)}
+		input := map[string]interface{}{"kind": kind, "source": src, "config": c, "scenario": scenarioFor(f, c, notes, r.code)}
 		failOnce(st, "syntax-leak:"+f, input,
 			map[string]interface{}{"output": clip(r.code, 1500), "detected": v.detected, "warnings": msgTexts(r.warnings)},
 			"no "+f+" syntax in the output for this target")
@@ -427,8 +432,12 @@ func checkOutput(st *Stats, kind string, src string, c *cfg, r result) verdict {
 	c3.setTarget("esnext")
 	// printer-level choices (how a code point is escaped) follow the target in
 	// both passes, otherwise the ESNext pass "un-lowers" \uD83D\uDE00 to \u{1F600}
+	c3.Supported = map[string]bool{}
 	if c.goOptions().UnsupportedJSFeatures.Has(compat.UnicodeEscapes) {
-		c3.Supported = map[string]bool{"unicode-escapes": false}
+		c3.Supported["unicode-escapes"] = false
+	}
+	if c.goOptions().UnsupportedJSFeatures.Has(compat.FunctionOrClassPropertyAccess) {
+		c3.Supported["function-or-class-property-access"] = false // parenthesises (class{}).p, a printer choice
 	}
 	b := runTransform(r.code, &c3)
 	if b.ok {
@@ -448,6 +457,8 @@ func checkOutput(st *Stats, kind string, src string, c *cfg, r result) verdict {
 		sc := "reparse"
 		if k := c.contradiction(); k != "" {
 			sc = "contradictory-supported-override:" + k
+		} else if len(b.errors) > 0 && strings.Contains(b.errors[0].Text, "Cannot use \"new.target\" here") && strings.Contains(src, "new.target") {
+			sc = "new-target-in-lowered-static-initializer"
 		}
 		failOnce(st, "output-does-not-parse", map[string]interface{}{"kind": kind, "source": src, "config": c, "scenario": sc},
 			map[string]interface{}{"output": clip(r.code, 1500), "errors": msgTexts(b.errors)}, "output parses")
